@@ -152,9 +152,15 @@ def term_units(n: Node, mode: str) -> str:
     raise ValueError(n)
 
 
-@lru_cache(maxsize=4096)
-def _compiled(p: str) -> Any:
-    return re.compile(p, re.DOTALL) if False else re.compile(p)
+_RX_COMPILED: dict[Any, Any] = {}
+
+
+def _compiled(p: str, binary: bool = False) -> Any:
+    """A bytes regex (rb"...") is a BYTES pattern: \\w, \\s, \\b and (?i) are ASCII-only there."""
+    key = (p, binary)
+    if key not in _RX_COMPILED:
+        _RX_COMPILED[key] = re.compile(p.encode("latin-1")) if binary else re.compile(p)
+    return _RX_COMPILED[key]
 
 
 def rx_alphabet_of(p: str) -> str:
@@ -173,12 +179,15 @@ def rx_alphabet_of(p: str) -> str:
     return "".join(dict.fromkeys(out))[:5]
 
 
-def rx_fullmatch(p: str, s: str) -> bool:
+def rx_fullmatch(p: str, s: str, binary: bool = False) -> bool:
+    """binary: p is a bytes regex, s holds the bytes as Latin-1 characters."""
+    if binary:
+        return _compiled(p, True).fullmatch(s.encode("latin-1")) is not None
     return _compiled(p).fullmatch(s) is not None
 
 
-def rx_greedy_len(p: str, s: str) -> Optional[int]:
-    m = _compiled(p).match(s)
+def rx_greedy_len(p: str, s: str, binary: bool = False) -> Optional[int]:
+    m = _compiled(p, True).match(s.encode("latin-1")) if binary else _compiled(p).match(s)
     return None if m is None else m.end()
 
 
@@ -272,7 +281,7 @@ class Sem:
                 seg = u[i:]
                 seg = seg[: len(seg) - len(seg) % 8]
                 sb = bytes(int(seg[x:x + 8], 2) for x in range(0, len(seg), 8)).decode("latin-1")
-                g = rx_greedy_len(node[1], sb)
+                g = rx_greedy_len(node[1], sb, True)
                 return set() if g is None else {i + 8 * g}
             if self.mode == "text":
                 for j in range(i, n + 1):
@@ -282,7 +291,7 @@ class Sem:
                 for j in range(i, n + 1, 8):
                     seg = u[i:j]
                     s = bytes(int(seg[x:x + 8], 2) for x in range(0, len(seg), 8)).decode("latin-1")
-                    if rx_fullmatch(node[1], s):
+                    if rx_fullmatch(node[1], s, True):
                         out.add(j)
             return out
         if k == "nt":
@@ -488,7 +497,7 @@ class Sem:
         for n in range(0, min(maxc, 4) + 1):
             for tup in itertools.product(alpha, repeat=n):
                 s = "".join(tup)
-                if rx_fullmatch(p, s):
+                if rx_fullmatch(p, s, self.mode != "text"):
                     out.append(s if self.mode == "text" else _bits(s.encode("latin-1")))
         _RX_CACHE[key] = out
         return out
@@ -624,7 +633,7 @@ def _leaf_matches(node: Node, t: Any) -> bool:
         want = bytes.fromhex(node[1])
         return (val == want) if kind == "b" else (val.encode("latin-1", "replace") == want and all(ord(c) < 256 for c in val))
     if k in ("rx", "brx"):
-        return rx_fullmatch(node[1], val if kind == "t" else val.decode("latin-1"))
+        return rx_fullmatch(node[1], val if kind == "t" else val.decode("latin-1"), k == "brx")
     return False
 
 
